@@ -105,9 +105,12 @@ func (c *Encoder) encodeErrorStatement(stmt *ast.ErrorStatement) *Frame {
 	defer encodePool.Put(w)
 	w.Reset()
 
-	w.Write(c.encodeExpression(stmt.Code).Encode())
-	if stmt.Argument != nil {
-		w.Write(c.encodeExpression(stmt.Argument).Encode())
+	// Both the status code and the argument are optional ("error;")
+	if stmt.Code != nil {
+		w.Write(c.encodeExpression(stmt.Code).Encode())
+		if stmt.Argument != nil {
+			w.Write(c.encodeExpression(stmt.Argument).Encode())
+		}
 	}
 
 	return &Frame{
